@@ -344,13 +344,84 @@ func main() {
 		dict(aStr("a"), nest(9, one, true)), dict(aStr("a"), nest(10, one, true)))
 	addm(set(), set(one), set(onef), set(one, two), set(two, one), set(aStr("a")), set(one, two, aI(3)))
 
+	var group []int
+	for range pool {
+		group = append(group, -1)
+	}
+	// ---- ints PRODUCED by operations (not built by the constructors): every Int operator with at
+	// least one operand outside the int32 range whose mathematical result is small (negative,
+	// zero, positive, the int32 boundaries), plus conversions; each next to the same value built
+	// directly.  Equal values must hash and compare alike whatever produced them.
+	{
+		B := []*big.Int{pow2(40), neg(pow2(40)), add(pow2(64), 1), neg(add(pow2(64), 1)), pow2(31), neg(add(pow2(31), 1))}
+		smalls := []int64{0, 1, -1, -3, 7, math.MaxInt32, math.MinInt32, 12345, -12345}
+		bin := func(op syntax.Token, x, y starlark.Value) starlark.Value {
+			v, err := starlark.Binary(op, x, y)
+			if err != nil || v == nil {
+				return nil
+			}
+			return v
+		}
+		mkI := func(z *big.Int) starlark.Value { return starlark.MakeBigInt(z) }
+		var derived []starlark.Value
+		for _, b := range B {
+			nb := new(big.Int).Not(b)
+			for _, s0 := range smalls {
+				sv := big.NewInt(s0)
+				derived = append(derived,
+					bin(syntax.MINUS, mkI(new(big.Int).Add(b, sv)), mkI(b)),                  // (b+s) - b
+					bin(syntax.PLUS, mkI(b), mkI(new(big.Int).Sub(sv, b))),                   // b + (s-b)
+					bin(syntax.CIRCUMFLEX, mkI(b), mkI(new(big.Int).Xor(b, sv))),             // b ^ (b^s)
+					bin(syntax.AMP, mkI(new(big.Int).Or(new(big.Int).Lsh(b, 32), sv)), mkI(big.NewInt(0xffffffff))), // low word
+					bin(syntax.PERCENT, mkI(new(big.Int).Add(new(big.Int).Mul(new(big.Int).Abs(b), big.NewInt(3)), new(big.Int).Abs(sv))), mkI(new(big.Int).Abs(b))),
+					bin(syntax.SLASHSLASH, mkI(new(big.Int).Mul(b, sv)), mkI(b)),             // (b*s) // b
+					bin(syntax.STAR, mkI(b), starlark.MakeInt(0)),
+				)
+				if s0 != 0 {
+					derived = append(derived, bin(syntax.GTGT, mkI(new(big.Int).Lsh(sv, 70)), starlark.MakeInt(70))) // (s<<70) >> 70
+					derived = append(derived, bin(syntax.PIPE, mkI(new(big.Int).And(b, sv)), mkI(new(big.Int).AndNot(sv, b))))
+				}
+			}
+			derived = append(derived, bin(syntax.PIPE, mkI(b), mkI(nb)), bin(syntax.AMP, mkI(b), mkI(nb)), bin(syntax.CIRCUMFLEX, mkI(b), mkI(nb)),
+				bin(syntax.SLASHSLASH, mkI(b), mkI(b)), bin(syntax.SLASHSLASH, mkI(b), mkI(new(big.Int).Neg(b))), bin(syntax.PERCENT, mkI(b), mkI(b)))
+			if u, err := starlark.Unary(syntax.MINUS, mkI(b)); err == nil {
+				derived = append(derived, u)
+			}
+			if u, err := starlark.Unary(syntax.TILDE, mkI(nb)); err == nil {
+				derived = append(derived, u)
+			}
+		}
+		for _, src := range []string{"int(-3.0)", "int('-3')", "int(1e20) - int(1e20) - 3", "int('-3', 16)", "(1 << 40) >> 40", "-(1 << 31)", "~(-(1 << 40)) - (1 << 40)", "abs(-(1<<40)) - (1<<40) - 3", "hash('') * 0 - 3"} {
+			if v, err := starlark.Eval(thread, "d", src, nil); err == nil {
+				derived = append(derived, v)
+			}
+		}
+		seenD := map[string]int{}
+		for _, v := range derived {
+			iv, ok := v.(starlark.Int)
+			if !ok {
+				continue
+			}
+			z := iv.BigInt()
+			if seenD[z.String()] >= 3 { // up to three differently produced copies of each value
+				continue
+			}
+			if seenD[z.String()] == 0 {
+				pool = append(pool, aInt(z), aFloat(func() float64 { f, _ := new(big.Float).SetInt(z).Float64(); return f }()))
+				group = append(group, -1, -1)
+			}
+			seenD[z.String()]++
+			pool = append(pool, mk{iv, dInt(z), 1})
+			group = append(group, -1)
+		}
+	}
+
 	// ---- magnitude bands: for k in 53..1023 an integral float m*2^(k-52) with a random odd
 	// 53-bit mantissa (so the low bits of the equal Int are not zero until the shift exceeds
 	// the word), the exactly equal Int, Int+-1, the neighbouring floats and the Int equal to one
 	// of them.  group[i] = band number of pool entry i (-1: base pool).
-	group := make([]int, len(pool))
-	for i := range group {
-		group[i] = -1
+	for len(group) < len(pool) {
+		group = append(group, -1)
 	}
 	bands := []int{53, 54, 31, 63, 64, 65, 32, 83, 84, 85, 52, 95, 96, 127, 128, 62, 66, 255, 256, 30, 511, 1000, 1022, 1023, 55, 70, 86, 97, 512, 40, 47, 33}
 	seenBand := map[int]bool{}
@@ -625,6 +696,110 @@ func main() {
 			violate("dict_classes", fmt.Sprintf("dict of all hashable values has %d entries for %d ==-classes; not found: %v", d.Len(), len(reps), missing))
 		}
 		hx.Emit(map[string]any{"kind": "alldict", "len": d.Len(), "classes": len(reps)})
+	}
+	// ---- dict / set HISTORIES: equal keys of different representations stay interchangeable after
+	// any sequence of insertions, updates and deletions, also with many keys in one bucket chain
+	// (multiples of 1024 collide in the low hash bits) - checked against a reference keyed by the
+	// mathematical value
+	{
+		rep := func(k, form int) starlark.Value {
+			z := int64(k) * 1024
+			if k%7 == 3 {
+				z = -z
+			}
+			switch form {
+			case 0:
+				return starlark.MakeInt64(z)
+			case 1:
+				return starlark.Float(float64(z))
+			case 2:
+				return starlark.Tuple{starlark.MakeInt64(z), starlark.String("k")}
+			default:
+				return starlark.Tuple{starlark.Float(float64(z)), starlark.String("k")}
+			}
+		}
+		nh := *nseq/2 + 50
+		for h := 0; h < nh; h++ {
+			rr := r.Split()
+			nkeys := 10 + rr.Intn(30)
+			d := starlark.NewDict(0)
+			st := starlark.NewSet(0)
+			refD := map[[2]int]int{} // (k, scalar|tuple) -> value
+			refS := map[[2]int]bool{}
+			var trace []string
+			bad := func(what string) {
+				if len(trace) > 40 {
+					trace = trace[len(trace)-40:]
+				}
+				violate("dict_history", what+"; last operations: "+fmt.Sprint(trace))
+			}
+			failed := false
+			for step := 0; step < 40+rr.Intn(80) && !failed; step++ {
+				k, form := rr.Intn(nkeys), rr.Intn(4)
+				id := [2]int{k, form / 2}
+				key := rep(k, form)
+				switch rr.Intn(6) {
+				case 0, 1, 2:
+					trace = append(trace, fmt.Sprintf("d[%v]=%d", key, step))
+					if err := d.SetKey(key, starlark.MakeInt(step)); err != nil {
+						bad("SetKey failed: " + err.Error())
+						failed = true
+					}
+					refD[id] = step
+				case 3:
+					trace = append(trace, fmt.Sprintf("del d[%v]", key))
+					_, found, _ := d.Delete(key)
+					if _, want := refD[id]; found != want {
+						bad(fmt.Sprintf("Delete(%v) found=%v, expected %v", key, found, want))
+						failed = true
+					}
+					delete(refD, id)
+				case 4:
+					trace = append(trace, fmt.Sprintf("s.add(%v)", key))
+					st.Insert(key)
+					refS[id] = true
+				default:
+					trace = append(trace, fmt.Sprintf("s.discard(%v)", key))
+					st.Delete(key)
+					delete(refS, id)
+				}
+				if d.Len() != len(refD) || st.Len() != len(refS) {
+					bad(fmt.Sprintf("len(dict)=%d for %d distinct keys, len(set)=%d for %d", d.Len(), len(refD), st.Len(), len(refS)))
+					failed = true
+					break
+				}
+				// lookups through every representation
+				for q := 0; q < 6; q++ {
+					k2, f2 := rr.Intn(nkeys), rr.Intn(4)
+					id2 := [2]int{k2, f2 / 2}
+					v, found, _ := d.Get(rep(k2, f2))
+					want, in := refD[id2]
+					if found != in || (found && fmt.Sprint(v) != fmt.Sprint(want)) {
+						bad(fmt.Sprintf("d.get(%v) = %v,%v but the reference has %v,%v", rep(k2, f2), v, found, want, in))
+						failed = true
+						break
+					}
+					if has, _ := st.Has(rep(k2, f2)); has != refS[id2] {
+						bad(fmt.Sprintf("%v in set is %v, expected %v", rep(k2, f2), has, refS[id2]))
+						failed = true
+						break
+					}
+				}
+			}
+			if !failed {
+				ks := d.Keys()
+				for a := 0; a < len(ks) && !failed; a++ {
+					for b := a + 1; b < len(ks); b++ {
+						if eq, _ := starlark.Equal(ks[a], ks[b]); eq {
+							bad(fmt.Sprintf("dict holds two equal keys %v and %v", ks[a], ks[b]))
+							failed = true
+							break
+						}
+					}
+				}
+			}
+		}
+		hx.Emit(map[string]any{"kind": "dicthist", "histories": nh})
 	}
 	// a value's hash never changes
 	for i := range items {
